@@ -6,7 +6,6 @@ import (
 	"encoding/hex"
 	"encoding/json"
 	"fmt"
-	"strings"
 	"testing"
 
 	"github.com/btcsuite/btcd/btcec/v2"
@@ -45,6 +44,7 @@ func TestC01TakerPaysOnlyValidatedOpening(t *testing.T) {
 	col := stats.Get("C01.taker")
 	rapid.Check(t, func(t *rapid.T) {
 		sim.LogReset()
+		sim.CaseStart(t)
 		w := sim.NewWorld()
 		defer w.Close()
 		seed := rapid.StringMatching(`[a-z]{6}`).Draw(t, "seed")
@@ -350,7 +350,7 @@ func TestC01TakerPaysOnlyValidatedOpening(t *testing.T) {
 			}
 		}
 		// the honest case must lead to a payment, otherwise "never pays" would satisfy everything above
-		if dev == "honest" && invDev == "honest" && paid == 0 && strings.Contains(sim.LogDump(), "could not pay invoice: timeout, last err: <nil>") {
+		if dev == "honest" && invDev == "honest" && paid == 0 && sim.Starved() {
 			// the payment loop's (harness-shortened) retry budget ran out before its first tick was
 			// handled: the goroutine was starved by machine load, no attempt was made and none refused.
 			// That is a time budget hit, not a refusal: the case is inconclusive.
